@@ -596,6 +596,10 @@ class CompilerPassGenerateCode(CompilerPass):
             elif isinstance(value, (IC10Register, IC10Operand)):
                 sym_data = self.data.get_sym_data(target)
                 can_assign_directly = not sym_data.is_overwritten
+                if isinstance(value, IC10Register) and value.is_overwritten:
+                    # the source is assigned again later: sharing its register would make the
+                    # target follow those later assignments
+                    can_assign_directly = False
                 if can_assign_directly:
                     sym_data.code_expr = (
                         value.code_expr
